@@ -20,6 +20,7 @@ K_TRAIL = "known:trailing-zero-size-field"
 K_FUNC = "known:func-descriptor-one-word"
 K_MAP = "known:map-indirect-slot-size"
 K_RECUR = "known:recursive-named-func-lowered-raw"
+K_ALIAS = "known:alias-func-extra-size-lost"
 
 UFIELDS = ["S", "A", "RS", "RA", "RFA", "AS", "SA", "RSA", "SS", "WO", "WM", "WR", "RI", "RAI"]
 
@@ -150,8 +151,10 @@ def unit_failures(u, U, F, C):
         real_ok = x["AS"] == x["SS"]
         if is_func and real_ok and x["S"] == x["AS"] and x["SA"] == 2 * x["AS"] and x["RSA"] == x["SA"] and x["RS"] * 2 == x["S"] and x["RI"] == x["RS"] and x["RAI"] == x["RS"]:
             cls = K_FUNC          # descriptor of the func type says one word
-        elif u["recursive_func"] and real_ok and x["AS"] < x["S"] and x["RS"] == x["S"]:
+        elif u["recursive_func"] and real_ok:
             cls = K_RECUR
+        elif u["alias_func"] and real_ok and x["S"] != x["AS"] and (x["RS"] == x["AS"] or (u["trailing_zs"] and x["RS"] > x["AS"])):
+            cls = K_ALIAS         # constant folded through an alias lost the second word of the func fields
         elif u["trailing_zs"] and real_ok and x["AS"] < x["S"] and x["RS"] == x["S"] and x["RSA"] == x["SA"] == 2 * x["S"] and x["RI"] == x["RS"]:
             cls = K_TRAIL         # folded constant and descriptor carry the gc padding, generated code does not
         out.append(("size", "Sizeof=%(S)d array-stride=%(AS)d slice-stride=%(SS)d reflect.Size=%(RS)d Sizeof([2]T)=%(SA)d reflect([2]T).Size=%(RSA)d reflect slice Index stride=%(RI)d reflect array Index stride=%(RAI)d" % x, cls))
@@ -162,7 +165,11 @@ def unit_failures(u, U, F, C):
     # fields
     for (path, O, M, R, S, RS) in F.get(i, []):
         if not (O == M == R):
-            cls = K_RECUR if u["recursive_func"] and O == R else None
+            cls = None
+            if u["recursive_func"]:
+                cls = K_RECUR
+            elif u["trailing_zs"] and O > M and M == R:
+                cls = K_TRAIL     # folded offset counts the gc padding of an earlier nested struct, generated code does not
             out.append(("offset", "field %s: Offsetof=%d measured=%d reflect=%d" % (path, O, M, R), cls))
         if S != RS:
             ft = field_type(t, path)
@@ -219,7 +226,7 @@ def leg_c(chk):
             if rc != 0:
                 return ("probe", rc, (so + se)[-2000:], {})
             runs = {}
-            for name in ("trailing", "func", "map", "recursive"):
+            for name in ("trailing", "func", "map", "recursive", "alias"):
                 runs[name] = core.run_prog([exe, name], timeout=60)
             return ("probe", 0, "", runs)
         k, d, units, src = p
@@ -231,7 +238,7 @@ def leg_c(chk):
     _, prc, perr, runs = results[0]
     if prc != 0:
         core.broken("C08: probe program does not build with llgo:\n" + perr)
-    probe_cls = {"trailing": K_TRAIL, "func": K_FUNC, "map": K_MAP, "recursive": K_RECUR}
+    probe_cls = {"trailing": K_TRAIL, "func": K_FUNC, "map": K_MAP, "recursive": K_RECUR, "alias": K_ALIAS}
     chk.cov["c_probe_results"] = {}
     for name, r in runs.items():
         if r.kind == "timeout":
